@@ -56,3 +56,38 @@ Theorem same_delivered_rows_same_statements : forall cfg fe scfg raw1 raw2 d rul
   forall x, In x l1 <-> In x l2.
 Proof. exact engine_plain_document_depends_on_delivered_row_sets. Qed.
 Print Assumptions same_delivered_rows_same_statements.
+
+(* the same for documents WITH REFERENCING OBJECT MAPS and WITH QUOTED SUBJECT / OBJECT MAPS (end-to-end theorems of C01 / C13 and
+   `Proofs/DocRowSetsP.v`: the generation rules read every table as a set of rows, for every document) *)
+From Morph Require Import Proofs.RowwiseP Proofs.JoinRuleP Proofs.DocJoinP Proofs.DocQuotedP Proofs.DocQuotedObjP Proofs.DocRowSetsP.
+Theorem same_delivered_rows_same_statements_with_joins : forall cfg fe scfg raw1 raw2 d0 rules l1 l2,
+  cfg_agree cfg scfg -> c_nquads cfg = s_nquads scfg -> s_na scfg = c_na cfg ->
+  forallb jplain_tm d0 = true -> nodupb (map t_id d0) = true -> parents_ok d0 = true -> normalise d0 = Ok rules -> nodupb (map r_id rules) = true ->
+  (forall rl, In rl rules -> simple_rule rl \/ join_rule_ok rules rl) ->
+  (forall raw rl rw n, In raw [raw1; raw2] -> In rl rules -> In rw (raw (r_src rl)) -> In n (rule_names rl ++ child_names rl ++ joins_child (r_ojoin rl)) -> assoc n rw <> None) ->
+  (forall raw src rw k, In raw [raw1; raw2] -> In rw (raw src) -> assoc (parent_prefix ++ k) rw = None) ->
+  (forall src rw, In rw (raw1 src) <-> In rw (raw2 src)) ->
+  materialize_rules cfg fe rules (delivered cfg raw1) = Ok l1 -> materialize_rules cfg fe rules (delivered cfg raw2) = Ok l2 ->
+  forall x, In x l1 <-> In x l2.
+Proof. exact engine_join_document_depends_on_delivered_row_sets. Qed.
+Print Assumptions same_delivered_rows_same_statements_with_joins.
+Theorem same_delivered_rows_same_statements_with_quoted_subjects : forall cfg fe scfg raw1 raw2 d0 rules l1 l2,
+  cfg_agree cfg scfg -> c_nquads cfg = s_nquads scfg -> s_na scfg = c_na cfg ->
+  quoted_doc d0 = true -> normalise d0 = Ok rules -> nodupb (map r_id rules) = true ->
+  (forall rl, In rl rules -> simple_rule rl \/ quoting_rule_ok rules rl) ->
+  (forall raw rl rw n, In raw [raw1; raw2] -> In rl rules -> In rw (raw (r_src rl)) -> In n (rule_ref_set fe rules rl) -> assoc n rw <> None) ->
+  (forall src rw, In rw (raw1 src) <-> In rw (raw2 src)) ->
+  materialize_rules cfg fe rules (delivered cfg raw1) = Ok l1 -> materialize_rules cfg fe rules (delivered cfg raw2) = Ok l2 ->
+  forall x, In x l1 <-> In x l2.
+Proof. exact engine_quoted_document_depends_on_delivered_row_sets. Qed.
+Print Assumptions same_delivered_rows_same_statements_with_quoted_subjects.
+Theorem same_delivered_rows_same_statements_with_quoted_objects : forall cfg fe scfg raw1 raw2 d0 rules l1 l2,
+  cfg_agree cfg scfg -> c_nquads cfg = s_nquads scfg -> s_na scfg = c_na cfg ->
+  qobj_doc d0 = true -> normalise d0 = Ok rules -> nodupb (map r_id rules) = true ->
+  (forall rl, In rl rules -> simple_rule rl \/ qobj_rule_ok rules rl) ->
+  (forall raw rl rw n, In raw [raw1; raw2] -> In rl rules -> In rw (raw (r_src rl)) -> In n (rule_ref_set fe rules rl) -> assoc n rw <> None) ->
+  (forall src rw, In rw (raw1 src) <-> In rw (raw2 src)) ->
+  materialize_rules cfg fe rules (delivered cfg raw1) = Ok l1 -> materialize_rules cfg fe rules (delivered cfg raw2) = Ok l2 ->
+  forall x, In x l1 <-> In x l2.
+Proof. exact engine_qobj_document_depends_on_delivered_row_sets. Qed.
+Print Assumptions same_delivered_rows_same_statements_with_quoted_objects.
